@@ -16,7 +16,8 @@ EXPLANATION = (
     "argument structure that reaches the call; (R3) check_output returns the validated value on the sync and the "
     "async path and every return of its inner validate is preceded by validation; (R4) check_io forwards its option "
     "tuple to both check_input and check_output in their parameter order; (R5) check_types validates inputs before "
-    "the call, returns the checked output, and its partial re-application forwards every option. NOT decided: "
+    "the call, returns the checked output, and its partial re-application forwards every option. (R6) inside check_types' argument handling, a pass-through `return arg` without validation is never reached for None under a non-Optional annotation; (R7) coroutine detection (inspect.iscoroutinefunction) is applied to the innermost function through _unwrap_fn. " 
+    "NOT decided: "
     "argument binding over all signature shapes (inspect.signature semantics), from_format/to_format conversions."
 )
 LEVEL_RULE = "one obligation per validate call site / obj_getter branch / wrapper / forwarding call in decorators.py"
